@@ -18,6 +18,7 @@ int op_table(int ntok, char **tok);
 int op_bstr(int ntok, char **tok);
 int op_num(int ntok, char **tok);
 int op_fn(int ntok, char **tok);
+int op_cfun(int ntok, char **tok);
 int op_urlenc(int ntok, char **tok);
 int op_mpart(int ntok, char **tok);
 void mpart_cleanup(void);
